@@ -155,6 +155,13 @@ func (e *FnEnc) assumeUnder(g, fact string) {
 }
 
 func (e *FnEnc) oblige(o *Obligation) {
+	if e.con != nil && len(o.Tags) == 0 && o.Kind != "cover" && o.Kind != "bind" {
+		for _, p := range e.con.ProtocolOnly {
+			if p == e.prop {
+				return // proved in the runs of the properties this function's functional clauses belong to
+			}
+		}
+	}
 	o.Func = e.fn.String()
 	o.Cut = len(e.script)
 	o.enc = e
